@@ -15,7 +15,7 @@ Clause by clause:
   constructors            C29_scalar_roundtrip, C29_public_ctor_type, C29_special_values
   occa::primitive         C29_prim_roundtrip_typed, C29_prim_roundtrip, C29_int_value_preserved, C29_untyped_overload_total
   json set/get (value+type)  C29_json_scalar_set_get, C29_json_bool_set_get, C29_json_string_null_set_get
-  json paths / histories  C29_json_set_get_path, C29_json_set_frame, C29_json_history
+  json paths / histories  C29_json_set_get_path, C29_json_set_frame, C29_json_history, C29_json_handle_set_get
   json arrays             C29_array_push_get, C29_array_history, C29_array_get_grows_keeps, C29_array_insert
   kernel arguments        C29_kernelarg_bytes, C29_kernelarg_public_ctor, C29_kernelarg_pointers, C29_kernelarg_bool_rejected
   handles                 C29_handles_safe, C29_handles_no_leak, C29_null_document_not_leaked
@@ -239,6 +239,19 @@ theorem C29_json_history (ws : List (List Key × J)) (j j' : J) (h : applySets w
 example : ∃ j', applySets [([[1]], .null), ([[2]], .str [7]), ([[1]], .str [9])] .none = .ok j' ∧
     getPath [[1]] j' = some (.str [9]) ∧ getPath [[2]] j' = some (.str [7]) :=
   ⟨_, rfl, rfl, rfl⟩
+
+/-- The same through a handle at ANY depth of a document (a handle obtained by any chain of
+    occaJsonObjectGet / occaJsonArrayGet designates the node at `p`): after
+    `occaJsonObjectSet(handle, path, v)` the value is found under `p ++ path` of the owning document,
+    i.e. `occaJsonObjectGet(handle, path, …)` and a get from the owner both see it. -/
+theorem C29_json_handle_set_get (doc doc' node node' : J) (p : List Step) (ks : List Key) (v : J)
+    (hnode : resolve p doc = some node)
+    (hset : setPath ks v (prepObject node) = .ok node')
+    (hdoc : modifyAt p (fun _ => node') doc = some doc') :
+    resolve (p ++ ks.map .key) doc' = some v := by
+  rw [resolve_append, resolve_modifyAt p _ doc doc' hdoc, hnode]
+  simp only [Option.map, Option.bind, resolve_keys]
+  exact getPath_setPath ks v _ _ hset
 
 /-! ### json arrays -/
 
